@@ -131,7 +131,16 @@ fifth batch (replace_pattern_in_structure: sample size, index map, deletion sets
   `call_mutates={"obj.m": [names]}`       in a fragment slice, a skipped expression statement `obj.m(…)` makes only the listed locals opaque
                                           (DECLARED per entry, trusted: `Atoms.extend` builds its own normalised dict and does not mutate
                                           the `structure_index_map` it is given — that line is translated in the fourth batch)
-  fragments also: `("ifstmt", "text then e")` the value of expression e right after the unique `if` STATEMENT whose test contains text
+  `self.attr op= e` in a mutating method  `self.attr = self.attr op e`; a mutating method WITHOUT a return value (`ret=None`) is the tuple of the
+                                          final values of the attributes it assigns; unary minus on a static array is element-wise
+  `ROWS(n)` attributes (`objattrs`)       an (n, 3) array given by n Vec3 parameters `obj_attr_0 …` (row i stands for itself; with n = 2 for
+                                          `search_pattern.positions`: row 0 is the first atom, row 1 is ANY other atom)
+  `obj.m(args)` as a statement            (`method_stmts={"m": lean}`) for a translated mutating method m of one row: every row of the attribute
+                                          m assigns becomes `lean row … args` (`let obj_attr_i' := …`); DECLARED: obj is an Atoms
+  `obj = obj.copy()` on an object parameter keeps what is declared about obj; any other re-binding of obj makes its attributes opaque
+  `x % 1.0` on a float (also element-wise) `Py.fmod1 x` = `x - floor x` (exact on the rational; the divisor must be the literal 1.0 / 1)
+  fragments also: `("stmt", "text then e")` with an EXPRESSION e (not only a name);
+                  `("ifstmt", "text then e")` the value of expression e right after the unique `if` STATEMENT whose test contains text
                                           (both outcomes of the `if` are part of the translation; a `raise` is `none`)
   fragments also: `("callkw", (f, k))`    after `("assign", x)`: the keyword argument `k` of the unique call of `f` inside the assigned value
 
@@ -191,6 +200,11 @@ def OPT(t):
 
 def TUP(*ts):
     return ("tuple", tuple(ts))
+
+
+def ROWS(n):
+    """a numpy array of shape (n, 3) given by its rows: n parameters of type Vec3 (`name_0` … `name_<n-1>`)"""
+    return ("rows", n)
 
 
 def DICT(k, v):
@@ -634,6 +648,15 @@ class Fn:
             v = self.ex(node.operand, env)
             if v.ty == OPAQUE:
                 return v
+            if v.np and v.items is not None:               # element-wise on a static array
+                def neg(x):
+                    if x.items is not None:
+                        return self.mkstatic([neg(y) for y in x.items])
+                    x = self.coerce(node, x, NUM if x.ty in (NUM, DECLIT) else INT)
+                    return V("(-%s)" % x.term, x.ty, x.binds, x.refs)
+                r = neg(v)
+                r.binds = v.binds + r.binds
+                return r
             if v.ty == NAT:
                 v = self.coerce(node, v, INT)
             if v.ty in (NUM, INT):
@@ -797,6 +820,9 @@ class Fn:
         if ty not in (NAT, INT, NUM):
             self.fail(node, "arithmetic on %s" % (ty,))
         if isinstance(node.op, ast.Mod):
+            if ty == NUM and ((b.ty == DECLIT and b.lit[0] == 10 ** b.lit[1]) or (b.ty == INTLIT and b.lit == 1)):
+                a = self.coerce(node, a, NUM)              # `x % 1.0` on a float: the fractional part, in [0, 1)
+                return V("(Py.fmod1 %s)" % a.term, NUM, a.binds, a.refs)
             if ty == NUM:
                 self.fail(node, "% on floats")
             a, b = self.coerce(node, a, INT), self.coerce(node, b, INT)
@@ -890,7 +916,7 @@ class Fn:
             if i >= len(base.items):
                 self.fail(node, "index %d outside a list of %d elements" % (i, len(base.items)))
             x = base.items[i]
-            return V(x.term, x.ty, base.binds, x.refs, x.items, x.lit)
+            return V(x.term, x.ty, base.binds, x.refs, x.items, x.lit, np=x.np)
         if base.ty == STR:
             r = self.rebind("(Py.strIndex? %s %d)" % (base.term, i), STR, base.refs)
             return V(r.term, STR, base.binds + r.binds, r.refs)
@@ -1397,6 +1423,11 @@ class Fn:
             if mode == "fold":
                 st = self.fold_state[-1]
                 return ("ret", env[st])
+            if self.cfg.get("mutates") and self.ret is None:
+                outs = [env["self." + a] for a in self.mutated_attrs()]     # a procedure: the final values of the attributes it assigns
+                outs = [self.coerce(None, o, self.cfg["attrs"][a]) for o, a in zip(outs, self.mutated_attrs())]
+                binds, refs = _join(*outs)
+                return self.with_binds(binds, ("ret", V("(%s)" % ", ".join(o.term for o in outs), None, (), refs)))
             if isinstance(self.ret, tuple) and self.ret[0] == "opt" and not self.cfg.get("tagged"):
                 return ("ret", V("none", self.ret))
             raise Unsupported("%s: %s can fall off its end (returns None)" % (self.path, self.cfg["py"]))
@@ -1523,6 +1554,42 @@ class Fn:
                     e2[tgt.value.id] = V(nm, d.ty, (), {nm})
                     binds = k.binds + v.binds + [(nm, "(Py.dictAppend? %s %s %s)" % (d.term, k.term, v.term), d.refs | k.refs | v.refs)]
                     return self.with_binds(binds, self.block(rest, e2, conts, mode))
+            # obj.m(args) for a translated MUTATING method m (`method_stmts`): every row of the attribute it assigns is replaced by
+            # the generated definition applied to that row
+            ms = self.cfg.get("method_stmts", {})
+            if isinstance(c, ast.Call) and isinstance(c.func, ast.Attribute) and isinstance(c.func.value, ast.Name) and \
+                    c.func.attr in ms and c.func.value.id in self.cfg.get("objattrs", {}) and not c.keywords:
+                obj = c.func.value.id
+                other = [f for f in FUNCTIONS if f["lean"] == ms[c.func.attr]][0]
+                if not other.get("mutates") or other.get("partial") or other["ret"] is not None:
+                    self.fail(s, "%s is not a total mutating method without a result" % c.func.attr)
+                attrs = list(other["attrs"])
+                target = [a for a in attrs if a != "__len__"]
+                if len(target) != 1 or any(obj + "." + a not in env for a in attrs):
+                    self.fail(s, "%s.%s: the attributes %r are not declared for %s" % (obj, c.func.attr, attrs, obj))
+                target = target[0]
+                cur = env[obj + "." + target]
+                args = [self.coerce(s, self.ex(a, env), t) for a, (_, t) in zip(c.args, other["params"])]
+                if len(c.args) != len(other["params"]) or cur.ty == OPAQUE or cur.items is None or \
+                        any(obj + "." + a in env and env[obj + "." + a].ty == OPAQUE for a in attrs):
+                    self.fail(s, "call %s" % ast.unparse(c))
+                binds, refs = _join(*args)
+                base = "%s_%s" % (obj, target)
+                gen = sum(1 for k in env if k.startswith("#" + base))
+                e2 = dict(env)
+                e2["#%s%d" % (base, gen)] = True
+                lets, rows = [], []
+                for i, row in enumerate(cur.items):
+                    nm = "%s_%d%s" % (base, i, "'" * (gen + 1))
+                    call = "(%s %s)" % (other["lean"], " ".join([(row.term if a == target else env[obj + "." + a].term) for a in attrs] +
+                                                                 [a.term for a in args]))
+                    lets.append((nm, V(call, VEC3, (), set(row.refs) | refs | {r for a in attrs if a != target for r in env[obj + "." + a].refs})))
+                    rows.append(static_param(nm, VEC3))
+                e2[obj + "." + target] = self.mkstatic(rows)
+                ir = self.block(rest, e2, conts, mode)
+                for nm, val in reversed(lets):
+                    ir = ("let", nm, val, ir)
+                return self.with_binds(binds, ir)
             self.fail(s, "expression statement %s" % ast.unparse(s)[:60])
         if isinstance(s, ast.FunctionDef):
             if s.name in self.cfg.get("calls", {}):
@@ -1595,6 +1662,12 @@ class Fn:
             e2 = dict(env)
             e2["self." + attr] = V(nm, ty, (), {nm})
             return self.with_binds(v.binds, ("let", nm, V(v.term, ty, (), v.refs), self.block(rest, e2, conts, mode)))
+        if isinstance(s, ast.AugAssign) and isinstance(s.target, ast.Attribute) and isinstance(s.target.value, ast.Name) and \
+                s.target.value.id == "self" and self.cfg.get("mutates") and s.target.attr in self.cfg.get("attrs", {}):
+            # `self.attr op= e`: `self.attr = self.attr op e`
+            load = ast.copy_location(ast.Attribute(value=s.target.value, attr=s.target.attr, ctx=ast.Load()), s)
+            return self.stmt(ast.copy_location(ast.Assign(targets=[s.target], value=ast.copy_location(
+                ast.BinOp(left=load, op=s.op, right=s.value), s)), s), rest, env, conts, mode)
         if isinstance(s, ast.AugAssign) and isinstance(s.target, ast.Name) and s.target.id in env and mode not in ("loop", "fold"):
             # `x op= e` on a local: `x = x op e` (values are immutable in the model: no aliasing of a mutated set / list)
             load = ast.copy_location(ast.Name(id=s.target.id, ctx=ast.Load()), s)
@@ -1614,6 +1687,10 @@ class Fn:
                 if v.ty == NONE and not self.slice:
                     self.fail(s, "assignment of None")
                 e2[x] = V.opaque()
+                if x in self.cfg.get("objattrs", {}) and ast.unparse(s.value) != "%s.copy()" % x:
+                    for key in list(e2):                     # an object parameter is re-bound to something else
+                        if key.startswith(x + "."):
+                            e2[key] = V.opaque()
                 return self.block(rest, e2, conts, mode)
             nm = self.lname(x)
             if v.ty in (INTLIT, DECLIT) or (v.items is not None and v.term == "?"):
@@ -1713,8 +1790,8 @@ class Fn:
         """the attributes of self the method assigns, in the order in which the translator declares them (`attrs`);
         unexpected ones last (they make the translation Unsupported)"""
         out = []
-        for n in sorted((n for n in ast.walk(self.node) if isinstance(n, ast.Assign)), key=lambda n: (n.lineno, n.col_offset)):
-            for t in n.targets:
+        for n in sorted((n for n in ast.walk(self.node) if isinstance(n, (ast.Assign, ast.AugAssign))), key=lambda n: (n.lineno, n.col_offset)):
+            for t in (n.targets if isinstance(n, ast.Assign) else [n.target]):
                 if isinstance(t, ast.Attribute) and isinstance(t.value, ast.Name) and t.value.id == "self" and t.attr not in out:
                     out.append(t.attr)
         order = list(self.cfg.get("attrs", {}))
@@ -2061,7 +2138,7 @@ class Fn:
                 if len(hits) != 1:
                     raise Unsupported("%s: %s: %d statements contain %r" % (self.path, self.cfg["py"], len(hits), text))
                 i, x = hits[0]
-                return out + stmts[:i + 1] + [ast.copy_location(ast.Return(value=ast.Name(id=var, ctx=ast.Load())), x)]
+                return out + stmts[:i + 1] + [ast.copy_location(ast.Return(value=ast.parse(var, mode="eval").body), x)]
             elif kind == "ifstmt":               # the value of expression `e` right after the unique `if` STATEMENT whose test contains `text`
                 text, _, var = text.partition(" then ")
                 hits = [(i, x) for i, x in enumerate(stmts) if isinstance(x, ast.If) and text in ast.unparse(x.test)]
@@ -2094,6 +2171,11 @@ class Fn:
         for obj, attrs in cfg.get("objattrs", {}).items():   # attributes read from a parameter that is an object
             for attr, ty in attrs.items():
                 nm = "%s_len" % obj if attr == "__len__" else "%s_%s" % (obj, attr)
+                if isinstance(ty, tuple) and ty[0] == "rows":
+                    rows = ["%s_%d" % (nm, i) for i in range(ty[1])]
+                    env[obj + "." + attr] = self.mkstatic([static_param(r, VEC3) for r in rows])
+                    params += [(r, VEC3) for r in rows]
+                    continue
                 env[obj + "." + attr] = static_param(nm, ty)
                 params.append((nm, ty))
         for c, ty in cfg.get("closure", []):            # variables of the enclosing function a nested function reads
@@ -2180,7 +2262,8 @@ class Fn:
             for a in self.mutated_attrs():
                 if a not in cfg["attrs"]:
                     raise Unsupported("%s:%d: %s assigns self.%s, which the translator does not expect" % (self.path, fn.lineno, cfg["py"], a))
-            rty = lean_ty(TUP(self.ret, *[cfg["attrs"][a] for a in self.mutated_attrs()]))
+            outs = [cfg["attrs"][a] for a in self.mutated_attrs()]
+            rty = lean_ty(TUP(*(([] if self.ret is None else [self.ret]) + outs))) if len(outs) != 1 or self.ret is not None else lean_ty(outs[0])
         else:
             rty = lean_ty(self.ret)
         if self.partial:
@@ -2619,6 +2702,9 @@ def dictValues {κ β} (d : List (κ × β)) : List β := d.map (fun p => p.2)
 /-- `a.isdisjoint(b)` on sets -/
 def setDisjoint {α} [DecidableEq α] (a b : List α) : Bool := a.all (fun x => !b.contains x)
 
+/-- `x % 1.0` on a float: `x - floor(x)`, in `[0, 1)` (python / numpy `%` takes the sign of the divisor) -/
+def fmod1 (x : Rat) : Rat := x - (Rat.floor x : Rat)
+
 '''
 assert PRELUDE.count("end Mofun.Generated.Py\n") == 1
 PRELUDE = PRELUDE.replace("end Mofun.Generated.Py\n", PRELUDE5 + "end Mofun.Generated.Py\n")
@@ -2648,6 +2734,20 @@ FUNCTIONS += [
          params=[("ignore_atoms_should_not_be_deleted_twice", BOOL)], inputs={"to_delete": SET(NAT), "to_delete_linker": SET(NAT)}, ret=SET(NAT),
          doc=" (FRAGMENT: the deletion set after one match — the `if to_delete.isdisjoint(…) or ignore…:` statement with both outcomes; "
              "`none` = `raise AtomsShouldNotBeDeletedTwice()`)"),
+    dict(file="mofun/atoms.py", cls="Atoms", py="translate", lean="atomsTranslate", params=[("delta", VEC3)], mutates=True,
+         attrs={"positions": VEC3, "__len__": NAT}, ret=None,
+         doc=" for ONE atom: the new value of its row of `self.positions` (`self.positions += delta`, guarded by `len(self) > 0`)"),
+    dict(_REPL, lean="replacePretranslate",
+         fragment=[("stmt", "search_pattern.translate then (replace_pattern.positions[0], search_pattern.positions[0], search_pattern.positions[1])")],
+         params=[], objattrs={"search_pattern": {"positions": ROWS(2), "__len__": NAT}, "replace_pattern": {"positions": ROWS(1), "__len__": NAT}},
+         method_stmts={"translate": "atomsTranslate"}, ret=TUP(VEC3, VEC3, VEC3),
+         doc=" (FRAGMENT on positions: the two pre-translations `replace_pattern.translate(-search_pattern.positions[0])`, "
+             "`search_pattern.translate(-search_pattern.positions[0])` IN THE ORDER OF THE SOURCE; result = (a replace-pattern atom, the first "
+             "search-pattern atom, any other search-pattern atom) afterwards)"),
+    dict(_REPL, lean="replaceWrap", fragment=_REPL_LOOP + [("assign", "new_atoms.positions containing .dot(")], params=[],
+         inputs={"cell": MAT3}, abstractions={"new_atoms.positions": ("pos", VEC3)}, ret=VEC3,
+         doc=" (FRAGMENT for ONE atom: the wrap into the unit cell, `(new_atoms.positions.dot(np.linalg.inv(cell)) % 1.0).dot(cell)`; "
+             "the inverse is expanded as adjugate / determinant)"),
     dict(_REPL, lean="replaceEmptyBranch", fragment=[("if", "len(replace_pattern)"), "test"], params=[], inputs={},
          objattrs={"replace_pattern": {"__len__": NAT}}, ret=BOOL,
          doc=" (FRAGMENT: is the replacement empty, i.e. is this a pure deletion)"),
